@@ -629,6 +629,12 @@ impl Gen {
         if counterish && r < 70 || r < 12 {
             return self.decimal();
         }
+        if self.flavor == "big" && r >= 45 && r < 85 {
+            // sizes around the powers of two where buffers and fast paths change
+            let n = *self.rng.pick(&[4095usize, 4096, 4097, 8192, 16383, 16384, 16385, 16386, 32768, 65535, 65536, 65537, 70000, 100000]);
+            let b = b'A' + self.rng.below(26) as u8;
+            return vec![b; n];
+        }
         if r < 20 {
             vec![]
         } else if r < 60 {
@@ -740,9 +746,11 @@ impl Gen {
 
     /// One well-formed request of a random kind.
     pub fn request(&mut self) -> Req {
-        let key = self.key();
-        let r = self.rng.below(100);
         let fl = self.flavor.clone();
+        // 'big': two keys, stores of large values and every retrieval variant of them
+        let key = if fl == "big" { KEYS[self.rng.below(2) as usize].to_vec() } else { self.key() };
+        let r = self.rng.below(100);
+        let r = if fl == "big" { *self.rng.pick(&[12u64, 15, 20, 25, 30, 33, 52, 60, 68, 70, 72, 75, 78, 80, 82, 85, 88, 89]) } else { r };
         let quiet = self.rng.chance(1, if fl == "quiet" { 2 } else { 6 });
         let q = |loud: u8| if quiet { gen::twin(loud).unwrap_or(loud) } else { loud };
         let mut req = if fl == "counter" && r < 55 || r < 10 {
